@@ -29,7 +29,12 @@ Clauses and oracles
  C20 *          RewardScaler mean/std == float64 mean / sample std of everything observed, output == stated transform, input not
                 mutated, finite on constant batches; ExponentialBaseline recurrence; WarmupBaseline alpha = min(1,(e+1)/n) and
                 convex combination of values and losses (stub inner baseline).
-Bound: see Report(bound=...) built in main(); tiny attention policies (embed 16, 1 layer), float32, CPU.
+                REINFORCE.shared_step(train) runs with every baseline and yields a finite loss.
+Tolerances: 1e-4 relative on rewards/losses/gradients; running statistics 1e-4 + 4*eps32*(max|x|/std)^2 (conditioning of float32 Welford).
+Bound: stated exactly in Report(bound=...) built in main(); tiny attention policies (embed 16, 1 layer), float32, CPU.
+Harness-side guards (no effect on valid runs): policies are called with max_steps=60 so that a decoding loop that never reaches
+`done` ends, and a watchdog prints the JSON with an error when the time budget (--budget, default 55 s / 570 s) is exhausted.
+KNOWN lists the clauses that the unchanged library really falsifies (reported via rep.known, never silenced).
 """
 import contextlib
 import copy
@@ -37,6 +42,7 @@ import io
 import itertools
 import os
 import sys
+import threading
 import warnings
 
 sys.path.insert(0, os.path.dirname(os.path.abspath(__file__)))
@@ -69,18 +75,12 @@ from rl4co.utils.ops import sample_n_random_actions  # noqa: E402
 
 logging.disable(logging.WARNING)
 
+_FAI = "StateAugmentation(first_aug_identity=False) indexes [list(td.size()), 0] = (row B, node 0): copy 1 of instance 0 gets one un-augmented node"
+_NRM = "normalize=True min-max rescales all copies with one global factor: copies are similar, not congruent, and copy 0 is no longer the original"
 KNOWN = {
-    "C15.aug.dihedral8.first_aug_identity=False.isometry": "StateAugmentation(first_aug_identity=False) overwrites node 0 of row B (copy 1 of instance 0) with un-augmented coords",
-    "C15.aug.symmetric.first_aug_identity=False.isometry": "same indexing bug ([list(td.size()), 0]) with the symmetric family",
+    **{f"C15.aug.{f}.first_aug_identity=False.{c}": _FAI for f in ("dihedral8", "symmetric") for c in ("isometry", "tour-cost-preserved")},
+    **{f"C15.aug.{f}.normalize=True.{c}": _NRM for f in ("dihedral8", "symmetric") for c in ("isometry", "tour-cost-preserved", "first-copy-is-original")},
     "C15.aug.symmetric.first_aug_identity=False.num_augment=1.IndexError": "same indexing bug: with a single copy row B does not exist -> IndexError",
-    "C15.aug.dihedral8.normalize=True.isometry": "normalize=True min-max rescales all copies globally: distances change",
-    "C15.aug.dihedral8.normalize=True.first-copy-is-original": "normalize=True: copy 0 is a rescaled instance, not the original",
-    "C15.aug.symmetric.normalize=True.isometry": "normalize=True min-max rescales all copies globally: distances change",
-    "C15.aug.symmetric.normalize=True.first-copy-is-original": "normalize=True: copy 0 is a rescaled instance, not the original",
-    "C15.aug.dihedral8.normalize=True.tour-cost-preserved": "normalize=True: tour cost on copies differs from the original",
-    "C15.aug.symmetric.normalize=True.tour-cost-preserved": "normalize=True: tour cost on copies differs from the original",
-    "C15.aug.dihedral8.first_aug_identity=False.tour-cost-preserved": "consequence of the first_aug_identity=False indexing bug",
-    "C15.aug.symmetric.first_aug_identity=False.tour-cost-preserved": "consequence of the first_aug_identity=False indexing bug",
     "C15.evaluate_policy.auto-batch-size.num_starts-lt-10.ZeroDivisionError": "get_automatic_batch_size divides by num_starts//10 == 0 when num_loc < 10 (multistart methods, default auto_batch_size=True)",
     "C12.start.op.infeasible-start-forced": "OP, k <= min #feasible: fixed starts 1..k are used even when masked (unreachable within max_length)",
     "C12.start.op.duplicate-starts-despite-k-feasible": "OP: if any row has < k feasible starts, all rows are resampled with replacement",
@@ -130,7 +130,12 @@ def quiet(fn, *a, **k):
 
 
 def mk_policy(env_name, cls=AttentionModelPolicy, **kw):
-    return cls(env_name=env_name, embed_dim=16, num_encoder_layers=1, num_heads=2, feedforward_hidden=32, **kw)
+    class Capped(cls):  # harness-side bound only: a decoding loop that never reaches `done` stops after 60 steps instead of 1e6
+        def forward(self, *a, **k):
+            k.setdefault("max_steps", 60)
+            return super().forward(*a, **k)
+
+    return Capped(env_name=env_name, embed_dim=16, num_encoder_layers=1, num_heads=2, feedforward_hidden=32, **kw)
 
 
 def objective(name, td, idx, acts):
@@ -212,11 +217,11 @@ def candidates(method, kw, pol, env, td):
 
 
 def sec_eval():
-    N, D = 6, 5
+    D = 5
     methods = [("greedy", {}), ("sampling", {"samples": 4}), ("multistart_greedy", {}), ("augment", {"num_augment": 3}),
                ("augment_dihedral_8", {}), ("multistart_greedy_augment", {"num_augment": 3}), ("multistart_greedy_augment_dihedral_8", {})]
-    for ename in ("tsp", "cvrp", "op") if THOROUGH else ("tsp", "cvrp"):
-        for rnd in range(3 if THOROUGH else 1):
+    for ename, N in itertools.product(("tsp", "cvrp", "op") if THOROUGH else ("tsp", "cvrp"), (6, 9) if THOROUGH else (6,)):
+        for rnd in range(4 if THOROUGH else 1):
             torch.manual_seed(A.seed + 10 + rnd)
             env = quiet(get_env, ename, generator_params=dict(num_loc=N))
             pol = mk_policy(ename).eval()
@@ -227,7 +232,7 @@ def sec_eval():
             greedy_r = objective(ename, orig, torch.arange(D), g)
             for (method, kw), bs in itertools.product(methods, (1, 2, 5, 8) if THOROUGH else (2, 5)):
                 tag, sd = f"C15.eval.{ename}.{method}", A.seed + 100 + rnd
-                REP.case((tag, bs, rnd))
+                REP.case((tag, N, bs, rnd))
                 inp = lambda b=None: {"env": ename, "num_loc": N, "method": method, "kwargs": kw, "batch_size": bs, "torch_seed": sd,
                                       "policy_seed": A.seed + 10 + rnd, "instance": b, "locs": orig["locs"] if b is None else orig["locs"][b]}
                 torch.manual_seed(sd)
@@ -459,7 +464,7 @@ class StubBaseline(REINFORCEBaseline):
 def sec_reinforce():
     env = get_env("tsp", generator_params=dict(num_loc=5))
     names = ["no", "mean", "exponential", "critic", "rollout_only", "warmup-critic", "extra", "a2c", "scale-norm", "scale-scale", "scale-2"]
-    for name, B, rnd in itertools.product(names, (2, 5) if not THOROUGH else (1, 2, 5, 8), range(2 if THOROUGH else 1)):
+    for name, B, rnd in itertools.product(names, (2, 5) if not THOROUGH else (1, 2, 5, 8), range(4 if THOROUGH else 1)):
         torch.manual_seed(A.seed + 50 + rnd)
         pol = mk_policy("tsp")
         scale = {"scale-norm": "norm", "scale-scale": "scale", "scale-2": 2}.get(name)
@@ -549,7 +554,7 @@ def sec_reinforce():
 
 
 def sec_shared():
-    for ename, B, S, rnd in itertools.product(("tsp", "cvrp"), (1, 3), (None, 3), range(2 if THOROUGH else 1)):
+    for ename, B, S, rnd in itertools.product(("tsp", "cvrp"), (1, 3), (None, 3), range(4 if THOROUGH else 1)):
         torch.manual_seed(A.seed + 60 + rnd)
         env = quiet(get_env, ename, generator_params=dict(num_loc=5))
         pol = mk_policy(ename)
@@ -565,7 +570,8 @@ def sec_shared():
         chk(close(objective(ename, orig, torch.arange(Sx * B) % B, cap["actions"]), cap["reward"]), tag + ".row-r-belongs-to-instance-r-mod-B", "reward row r is not the objective of its actions on instance r mod B", inp)
         R, LL = cap["reward"].view(Sx, B).T, cap["log_likelihood"].view(Sx, B).T
         adv = R - R.mean(1, keepdim=True)
-        chk(close(torch.as_tensor(cap["bl_val"]).reshape(B), R.mean(1)), tag + ".shared-baseline-is-instance-mean", "bl_val != mean over the instance's own starts (advantages not centred per instance)", inp)
+        blv = torch.as_tensor(cap["bl_val"])
+        chk(blv.numel() == B and close(blv.reshape(B), R.mean(1)), tag + ".shared-baseline-is-instance-mean", "bl_val != mean over the instance's own starts (advantages not centred per instance)", inp)
         ref = -(adv.detach() * LL).mean()
         chk(close(cap["loss"], ref), tag + ".loss-equals-surrogate", f"loss {float(cap['loss']):.6f} != reference {float(ref):.6f}", inp)
         chk(same_grads(grads(cap["loss"], list(pol.parameters())), grads(ref, list(pol.parameters()))), tag + ".gradient-equals-surrogate-gradient", "gradient differs from reference", inp)
@@ -602,7 +608,7 @@ def sec_ppo():
     env = get_env("tsp", generator_params=dict(num_loc=5))
     cfgs = [(8, 0.5, "instance", 0.1, 0.01), (6, 3, "instance", 0.2, 0.0), (4, 1.0, "instance", 0.05, 0.1), (8, 0.5, "batch", 0.1, 0.01), (3, 0.25, "instance", 0.2, 0.0), (9, 0.25, "instance", 0.2, 0.0)]
     clipped = 0
-    for (B, mbs, norm, clip, ent), rnd in itertools.product(cfgs, range(2 if THOROUGH else 1)):
+    for (B, mbs, norm, clip, ent), rnd in itertools.product(cfgs, range(4 if THOROUGH else 1)):
         torch.manual_seed(A.seed + 80 + rnd)
         pol = mk_policy("tsp", normalization=norm)
         model = PPO(env, pol, clip_range=clip, ppo_epochs=2, mini_batch_size=mbs, entropy_lambda=ent, vf_lambda=0.5, critic_kwargs=dict(embed_dim=16, hidden_dim=32))
@@ -707,7 +713,7 @@ def sec_baselines():
         chk(stub.epochs == list(range(n + 2)), "C20.warmup.inner-epoch-callback-forwarded", f"inner baseline saw epochs {stub.epochs}", {"n_epochs": n})
 
 
-SECTIONS = [("C15", "aug", sec_aug), ("C15", "eval", sec_eval), ("C12", "ops", sec_ops), ("C12", "start", sec_start), ("C12", "best", sec_best),
+SECTIONS = [("C12", "ops", sec_ops), ("C15", "aug", sec_aug), ("C15", "eval", sec_eval), ("C12", "start", sec_start), ("C12", "best", sec_best),
             ("C16", "reinforce", sec_reinforce), ("C16", "shared", sec_shared), ("C16", "ppo", sec_ppo), ("C20", "scaler", sec_scaler), ("C20", "baselines", sec_baselines)]
 
 
@@ -719,17 +725,31 @@ def main():
     REP = _lib.Report(
         bound=(f"tier={A.tier}, VERIF_SEED={A.seed}, float32 CPU, policies: attention model embed 16 / 1 layer / 2 heads. "
                f"C15 aug: dihedral8 + symmetric A in {'{1,2,3,4,8,16}' if t else '{2,3,8}'} x options {{default, first_aug_identity=False, normalize=True}} x B in {{1,2,3}} x N in {{2,5,8}} x {3 if t else 1} coordinate draws (uniform, corners); "
-               f"C15 eval: envs {'tsp,cvrp,op' if t else 'tsp,cvrp'} num_loc 6, dataset of 5, 7 methods (samples=4, num_augment=3|8, num_starts=6), dataloader batch sizes {'{1,2,5,8}' if t else '{2,5}'}, {3 if t else 1} policy/data seeds; auto batch size for num_loc in {{6,12}} x 5 methods; "
+               f"C15 eval: envs {'tsp,cvrp,op' if t else 'tsp,cvrp'} num_loc {'{6,9}' if t else '6'}, dataset of 5, 7 methods (samples=4, num_augment=3|8, num_starts=num_loc), dataloader batch sizes {'{1,2,5,8}' if t else '{2,5}'}, {4 if t else 1} policy/data seeds; auto batch size for num_loc in {{6,12}} x 5 methods; "
                f"C12 ops: B in 1..4 x {13 if t else 9} replication shapes (k,(a,s),(r,a,s)) x tensor/TensorDict/nested; gather_by_index 16 shapes; start nodes: 7 envs x B in {{1,3,4}} x k in {{1,2,3,ns/2,ns}} x {4 if t else 2} seeds (OP with max_length 1.2); "
                f"best-of-k: tsp,cvrp x B in {{1,3}} x k in {{2,5}} x 3 decode types; POMO/SymNCO val 6 configs x 2 envs x B in {{1,3}}; "
                f"C16: REINFORCE 11 baseline/scale configs x B in {'{1,2,5,8}' if t else '{2,5}'} x 3 successive steps; POMO train tsp,cvrp x B in {{1,3}} x S in {{N,3}}; SymNCO 5 (A,S) configs x B in {{1,3}}; PPO 6 configs x 2 epochs of mini-batches with real SGD steps; "
                f"C20: RewardScaler 4 modes x 5 magnitude/offset pairs x {6 if t else 2} random batch-size sequences (2-6 batches of 1-9) + 60 constant batches; EMA 4 betas x 5 steps; warm-up n_epochs in {{1,2,4,5}} x epochs -1..n+1."),
         rule="a case is one (clause family, env/config, batch size, replication factor, seed/step) tuple; all random draws derive from VERIF_SEED",
         max_violations=40)
+    cur = ["start"]
+
+    def out_of_time():  # a library call that does not return must not take the budget of the whole check
+        REP.error(f"time budget of {budget:.0f}s exceeded in section {cur[0]}; remaining sections not run")
+        REP.finish()
+        sys.stdout.flush()
+        os._exit(0)
+
+    budget = A.budget or (570.0 if THOROUGH else 55.0)
+    timer = threading.Timer(budget, out_of_time)
+    timer.daemon = True
+    timer.start()
     for prop, name, fn in SECTIONS:
         if (A.prop and A.prop != prop) or (A.only and A.only not in name):
             continue
-        REP.guard(fn, f"{prop}.{name}")
+        cur[0] = f"{prop}.{name}"
+        REP.guard(fn, cur[0])
+    timer.cancel()
     return REP.finish()
 
 
